@@ -7,6 +7,6 @@ if ! git diff --quiet; then echo "refusing: /repo has uncommitted changes"; exit
 git apply "$PATCH" || { echo "patch does not apply"; exit 2; }
 trap 'git -C /repo checkout -- . ' EXIT
 for id in "$@"; do
-  out=$(cd /verif && ./check "$id" --tier quick 2>&1); rc=$?
+  out=$(cd /verif && QUICKADD_OUT="${QUICKADD_OUT:-/tmp/qa_seedout}" ./check "$id" --tier quick 2>&1); rc=$?
   if [ $rc -eq 0 ]; then echo "quiet   $id   $(echo "$out" | grep -c DRIFT) drift notes"; else echo "ALARM($rc) $id: $(echo "$out" | grep -E '^VIOLATION|MACHINERY|Error' | head -2 | cut -c1-260)"; fi
 done
